@@ -473,6 +473,8 @@ class _FnConv:
             inclusive = cond_e[1] == '<='
         else:
             ok = False
+        if ok and inclusive and step in (None, ('num', 1)):
+            hi, inclusive = ('bin', '+', hi, ('num', 1)), False         # `v <= hi` with a unit step is `v < hi + 1`: one loop form
         if ok:
             return S('for', line, var=var, lo=lo, hi=hi, step=step, body=body_s, inclusive=inclusive,
                      declares=(len(init_s) == 1 and init_s[0].k == 'decl'))
